@@ -169,7 +169,7 @@ def fault_class(api, fault):
 def allowed(ref, call):
     if call == "begin":
         return ref == "ready"
-    if call in ("send0", "send1", "send_offsets"):
+    if call in ("send0", "send1", "send_offsets", "send0_nowait", "send1_nowait"):
         return ref == "in_txn"
     if call in ("commit", "ctx_ok"):
         return ref == "in_txn"       # in 'abortable' commit is refused with the stored error
@@ -189,10 +189,19 @@ def monitor(ck, prog, res, stats):
     fatal = None            # (api, code) of the fatal fault delivered
     prev_view = None
     unspecified = False
+    outstanding = False     # nowait sends whose futures have not been awaited
     for i, c in enumerate(res["calls"]):
         name = c["call"]
         view = cluster_view(c)
         sent = c["requests"] + c["late_requests"]
+        is_nw = name.endswith("_nowait")
+        is_end = name in ("commit", "abort", "ctx_ok", "ctx_exc")
+        pend = outstanding
+        await_first = pend and not is_end and not is_nw      # the futures are awaited before this call
+        if not is_nw:
+            outstanding = False
+        futs = c.get("futs") or {}
+        fut_excs = [v[1] for v in futs.values() if v[0] != "ok"]
 
         def viol(what, sig=None):
             stats["violations"] = stats.get("violations", 0) + 1
@@ -221,6 +230,37 @@ def monitor(ck, prog, res, stats):
                 viol(f"after the fatal error {fatal[1]} on {fatal[0]} the cluster state still changed", sig)
             prev_view = view
             continue
+        if await_first:
+            # the outstanding sends are awaited first: their error, if any, surfaces now and the
+            # call is made in the state it leaves behind
+            stats["await_first_calls"] = stats.get("await_first_calls", 0) + 1
+            classes = [fault_class(a, f) for a, f in delivered]
+            if any(k is None for k in classes):
+                stats["unspecified_faults"] = stats.get("unspecified_faults", 0) + 1
+                unspecified = True
+                continue
+            if "fatal" in classes:
+                a, f = delivered[classes.index("fatal")]
+                fatal = (a, f["code"])
+                stats["fatal_faults"] = stats.get("fatal_faults", 0) + 1
+                if c["result"] != "exc" and not fut_excs:
+                    viol(f"the fatal error {f['code']} on {a} arrived but neither {name} nor an awaited send "
+                         f"future failed", KNOWN_PRODUCE_FATAL if a == "Produce" else f"fatal-not-reported:{a}:{f['code']}")
+                prev_view = view
+                continue
+            if "abortable" in classes:
+                a, f = delivered[classes.index("abortable")]
+                abort_exc = ABORTABLE_AT[(a, f["code"])]
+                stats["abortable_faults"] = stats.get("abortable_faults", 0) + 1
+                if c["result"] != "exc" or (c.get("exc") != abort_exc and abort_exc not in fut_excs):
+                    viol(f"the abortable error {abort_exc} arrived but was reported neither by {name} nor by an "
+                         f"awaited send future: {c['result']} {c.get('exc')} futs {futs}", "abortable-not-reported")
+                ref = "abortable"
+                prev_view = view
+                continue
+            if fut_excs:
+                viol(f"a nowait send future failed with {fut_excs} although only retriable faults {delivered} "
+                     f"occurred", "nowait-future-failed")
         if not allowed(ref, name):
             stats["illegal_calls"] = stats.get("illegal_calls", 0) + 1
             if ref == "abortable" and name in ("commit", "ctx_ok"):
@@ -229,9 +269,9 @@ def monitor(ck, prog, res, stats):
                          "abortable-commit-does-not-raise")
             elif c["result"] != "exc":
                 viol(f"call {name} out of protocol order (state {ref}) did not raise", "illegal-call-accepted")
-            if sent:
+            if sent and not pend:
                 viol(f"call {name} out of protocol order (state {ref}) sent {sent}", "illegal-call-has-effect")
-            if prev_view is not None and view != prev_view:
+            if prev_view is not None and view != prev_view and not pend:
                 viol(f"call {name} out of protocol order (state {ref}) changed the cluster",
                      "illegal-call-has-effect")
             prev_view = view
@@ -258,9 +298,14 @@ def monitor(ck, prog, res, stats):
             if c["result"] != "exc" or c.get("exc") != abort_exc:
                 viol(f"{name} did not fail with {abort_exc} although that abortable error arrived: "
                      f"{c['result']} {c.get('exc')}", "abortable-not-reported")
-            if name.startswith("send") and any(a == "Produce" for a, _ in c["requests"]):
-                viol(f"the batch waiting for the partition that could not be added was produced: {c['requests']}",
-                     "abortable-batch-produced")
+            if a == "AddPartitionsToTxn":
+                refused = set(next((x for api, x in c["requests"] if api == "AddPartitionsToTxn"), []))
+                if any(api == "Produce" and refused & set(x) for api, x in sent):
+                    viol(f"the batch waiting for the partition that could not be added was produced: {sent}",
+                         "abortable-batch-produced")
+                if any(futs.get(str(q), ["exc"])[0] == "ok" for q in refused):
+                    viol(f"a send to the partition that could not be added was reported as delivered: {futs}",
+                         "abortable-batch-reported-ok")
             ref = "abortable"
             prev_view = view
             continue
@@ -269,6 +314,11 @@ def monitor(ck, prog, res, stats):
             viol(f"call {name} in protocol order (state {ref}) failed with {c.get('exc')} "
                  f"although only retriable faults {delivered} occurred", "legal-call-refused")
             return
+        if fut_excs and not await_first:
+            viol(f"a nowait send future failed with {fut_excs} although only retriable faults {delivered} "
+                 f"occurred", "nowait-future-failed")
+        if is_nw:
+            outstanding = True
         if name == "begin":
             ref = "in_txn"
         elif name in ("commit", "abort", "ctx_ok", "ctx_exc"):
@@ -308,13 +358,20 @@ def run(ck: Check):
         "fault injection by request position within a call",
         "model/C16_TxnApi.v is hand-written from transaction_manager.py / producer.py / sender.py; tied to "
         "the code by per-call agreement (result, requests, state) on every program run",
-        "calls are awaited one after the other (send = send() + await its future): concurrency between "
-        "API calls is C07's subject, not modelled here",
+        "calls are awaited one after the other (send = send() + await its future), except the nowait sends "
+        "(send0_nowait / send1_nowait: the delivery future is kept and awaited when the next commit / abort / "
+        "context exit has returned or raised, or right before any other call that is not a nowait send), which put "
+        "the registration and the Produce of a batch into COMMITTING / ABORTING; programs with nowait sends run on "
+        "a one-broker cluster (one leader for both partitions); send_offsets_to_transaction is always awaited; "
+        "other concurrency between API calls is C07's subject, not modelled here",
+        "model/C16_TxnApi.v spec_must / spec_may: the hand-written table of required / permitted transitions "
+        "(KIP-98, Java TransactionManager.State.isTransitionValid, order of requests in aiokafka's sender)",
     ]
     ck.cov["rule"] = ("one evaluation = one program (sequence of calls over {begin, send(p0), send(p1), "
-                      "send_offsets_to_transaction, commit, abort, context exit with/without exception} with "
+                      "send_offsets_to_transaction, commit, abort, context exit with/without exception, "
+                      "send(p0)/send(p1) without awaiting the delivery future} with "
                       "0-2 faults {14 error codes, connection drop before/after apply} placed on the i-th "
-                      "transactional request of a call) run on the real producer and on the model; "
+                      "(i < 4) transactional request of a call) run on the real producer and on the model; "
                       "non-trivial = at least one transactional request reached the cluster; distinct by "
                       "(calls, faults)")
     ok_t, _ = ck.regenerate(["TxnTable"])
@@ -326,7 +383,7 @@ def run(ck: Check):
     L0 = ck.n(4, 5)
     base = []
     for L in range(1, L0 + 1):
-        for cs in itertools.product(range(8), repeat=L):
+        for cs in itertools.product(range(NCALLS), repeat=L):
             base.append(tuple((c, 0) for c in cs))
     table = run_impl("c16_impl.py", {"programs": [], "table": True}, env={"AIOKAFKA_NO_EXTENSIONS": "1"})["table"]
     check_table(ck, table)
@@ -341,7 +398,7 @@ def run(ck: Check):
             continue
         for i, c in enumerate(r["calls"]):
             nf = sum(1 for a, _ in c["requests"] if a in FAULTABLE)
-            for idx in range(min(nf, 2)):
+            for idx in range(min(nf, MAXIDX)):
                 for k in range(NK):
                     q = list(p)
                     q[i] = (q[i][0], fault_num(idx, k))
@@ -364,6 +421,23 @@ def run(ck: Check):
                     scripted.append(tuple([(c, 0) for c in pre] + [(call, fault_num(idx, k))] + [(c, 0) for c in tail]))
     witness = ((0, 0), (1, fault_num(1, 7)), (4, 0))
     scripted.append(witness)
+    # nowait sends: partitions registered before or not, one or both outstanding, then every call with
+    # every fault position (a selection of fault kinds in the quick tier), then recovery
+    nw_pre = ck.n([[0], [0, 1], [0, 3]], [[0], [0, 1], [0, 2], [0, 1, 2], [0, 3]])
+    nw_sets = ck.n([[8], [9], [8, 9], [8, 8]], [[8], [9], [8, 9], [9, 8], [8, 8]])
+    nw_kinds = ck.n([2, 3, 5, 6, 7, 8, 14], list(range(NK)))
+    for pre in nw_pre:
+        for nw in nw_sets:
+            for nxt in range(8):
+                head = [(c, 0) for c in pre + nw]
+                tail = [(c, 0) for c in (5, 0, 1, 2, 4)]
+                scripted.append(tuple(head + [(nxt, 0)] + tail))
+                for idx in range(MAXIDX):
+                    for k in nw_kinds:
+                        scripted.append(tuple(head + [(nxt, fault_num(idx, k))] + tail))
+    # the abortable error while the transaction is being ended (theorem c16_abortable_while_ending)
+    nw_witness = ((0, 0), (8, 0), (4, fault_num(0, 5)), (4, 0), (5, 0), (0, 0), (1, 0), (4, 0))
+    scripted.append(nw_witness)
     for _ in range(ck.n(800, 30000)):
         L = rng.choice([5, 6])
         # biased towards protocol order so that requests actually happen
@@ -371,13 +445,13 @@ def run(ck: Check):
         inside = False
         for _j in range(L):
             if rng.random() < 0.75:
-                c = rng.choice([1, 2, 3, 1, 2, 4, 5, 6, 7]) if inside else 0
+                c = rng.choice([1, 2, 3, 8, 9, 8, 9, 4, 5, 6, 7]) if inside else 0
             else:
-                c = rng.randrange(8)
-            inside = (c == 0) or (inside and c in (1, 2, 3))
+                c = rng.randrange(NCALLS)
+            inside = (c == 0) or (inside and c in (1, 2, 3, 8, 9))
             p.append([c, 0])
         for _j in range(rng.choice([1, 1, 2])):
-            p[rng.randrange(L)][1] = fault_num(rng.randrange(2), rng.randrange(NK))
+            p[rng.randrange(L)][1] = fault_num(rng.choice([0, 0, 1, 1, 2, 3]), rng.randrange(NK))
         scripted.append(tuple((a, b) for a, b in p))
     todo = list(dict.fromkeys(progs2 + scripted))
     res2 = run_programs([(p, p) for p in todo])
@@ -456,7 +530,7 @@ def run(ck: Check):
             parts.append(f"program {[CALLS[a] for a, _ in p]} faults "
                          f"{ {i: fault_of_num(f) for i, (_, f) in enumerate(p) if f} }: model {m} real "
                          f"{real_hash[p][1]} calls "
-                         f"{[[c['call'], c['result'], c.get('exc'), c.get('phase'), c['requests'], c['late_requests'], c['state_after']] for c in r['calls']]}")
+                         f"{[[c['call'], c['result'], c.get('exc'), c.get('phase'), c.get('futs'), c['requests'], c['late_requests'], c['state_after']] for c in r['calls']]}")
         detail = f"{len(mism)} programs differ; " + " || ".join(parts)
     ck.obligation("correspondence:real-producer-equals-model-on-every-program",
                   not mism and coq_fail == 0, detail or f"{coq_fail} case files failed to evaluate")
@@ -468,6 +542,17 @@ def run(ck: Check):
                   and rw["calls"][2]["requests"] == [["EndTxn", [1]]] and witness not in mism)
     ck.obligation("correspondence:refutation-witness-replayed-on-real-code", wit_ok,
                   "" if wit_ok else f"witness run: {rw and rw.get('calls')}")
+    # c16_run_example_nowait on the real code: the abortable error arrives while COMMITTING
+    rn = results.get(nw_witness)
+    nw_ok = bool(rn and rn.get("ok") and [(c["result"], c.get("exc")) for c in rn["calls"]] ==
+                 [("ok", None), ("ok", None), ("exc", "TopicAuthorizationFailedError"),
+                  ("exc", "TopicAuthorizationFailedError"), ("ok", None), ("ok", None), ("ok", None), ("ok", None)]
+                 and rn["calls"][2]["state_before"] == "IN_TRANSACTION"
+                 and rn["calls"][2]["requests"] == [["AddPartitionsToTxn", [0]]]
+                 and (rn["calls"][2].get("futs") or {}).get("0", [None])[0] == "exc"
+                 and nw_witness not in mism)
+    ck.obligation("correspondence:abortable-error-while-committing-replayed-on-real-code", nw_ok,
+                  "" if nw_ok else f"run: {rn and [[c['call'], c['result'], c.get('exc'), c.get('futs'), c['requests'], c['state_after']] for c in rn.get('calls', [])]}")
     ck.log(f"model agreement: {len(keys)} programs, {len(mism)} differ, {coq_fail} coq failures")
 
 
